@@ -19,7 +19,7 @@ const (
 	chanValKey  = "H:$chan.val"
 	chanCapKey  = "H:$chan.cap"
 	deadlineKey = "H:$timer.deadline"
-	decodedKey  = "G:$decoded" // the object filled by the most recent gob Decode (codec.go)
+	decodedKey  = "G:$decoded"      // the object filled by the most recent gob Decode (codec.go)
 	sendsKey    = "G:$sendattempts" // number of channel sends attempted so far (plain sends and send clauses of a select)
 )
 
